@@ -107,8 +107,25 @@ class SigmaCollection:
             else self.rules
         )
 
-        # Sort rules by reference order
-        self.rules = list(sorted(self.rules))
+        # Sort rules by reference order. The reference relation is only a partial order, which
+        # can't be used as sort key. Therefore, a stable topological sort is conducted: each rule is
+        # preceded by the rules it refers to, apart from that the given order is preserved.
+        rule_ids = {id(rule) for rule in self.rules}
+        visited: set[int] = set()
+        ordered_rules: list[SigmaRule | SigmaCorrelationRule] = []
+
+        def visit(rule: SigmaRule | SigmaCorrelationRule) -> None:
+            if id(rule) in visited or id(rule) not in rule_ids:
+                return
+            visited.add(id(rule))
+            if isinstance(rule, SigmaCorrelationRule):
+                for rule_ref in rule.referenced_rules:
+                    visit(rule_ref.rule)
+            ordered_rules.append(rule)
+
+        for rule in self.rules:
+            visit(rule)
+        self.rules = ordered_rules
 
     @classmethod
     def from_dicts(
